@@ -4,12 +4,15 @@ From Fsn Require Import Conc ConcDefs ConcSafety ConcLive.
 Local Open Scope nat_scope.
 
 Section Main.
-  Context {E X D C R : Type}.
+  Context {E X D C R I K : Type}.
   Variable api : D → C → D * R.
   Variable closed_result : C → R.
-  Notation cstate := (@cstate E X D C R).
-  Notation reachable := (reachable api closed_result).
-  Notation crun := (crun api closed_result).
+  Variable pre : I → list (@msg E X).
+  Variable hnd : D → I → D * list (@msg E X).
+  Variable env : D → K → option D.
+  Notation cstate := (@cstate E X D C R I K).
+  Notation reachable := (reachable api closed_result pre hnd env).
+  Notation crun := (crun api closed_result pre hnd env).
 
   (* an API call in flight completes within 4 steps of threads — no consumer, kernel or new call needed — from every
      reachable state, whatever is pending *)
@@ -19,8 +22,8 @@ Section Main.
     ∃ ls s', only_threads ls ∧ length ls ≤ 4 ∧ crun cap cf s ls = Some s' ∧ ∃ r, thr s' !! t = Some (CDone r).
   Proof.
     intros Hcf Hr.
-    pose proof (cinv_reachable api closed_result cap cf d s Hr) as HI.
-    pose proof (reachable_LInv api closed_result cap cf d s Hr) as HL.
+    pose proof (cinv_reachable api closed_result pre hnd env cap cf d s Hr) as HI.
+    pose proof (reachable_LInv api closed_result pre hnd env cap cf d s Hr) as HL.
     eapply caller_returns; eauto.
   Qed.
 
@@ -30,8 +33,8 @@ Section Main.
     ∃ ls s', only_threads ls ∧ length ls ≤ reader_measure (rd s) + 5 ∧ crun cap cf s ls = Some s' ∧ thr s' !! t = Some KDone.
   Proof.
     intros Hcf Hr.
-    pose proof (cinv_reachable api closed_result cap cf d s Hr) as HI.
-    pose proof (reachable_LInv api closed_result cap cf d s Hr) as HL.
+    pose proof (cinv_reachable api closed_result pre hnd env cap cf d s Hr) as HI.
+    pose proof (reachable_LInv api closed_result pre hnd env cap cf d s Hr) as HL.
     eapply close_returns; eauto.
   Qed.
 
@@ -41,8 +44,8 @@ Section Main.
              rd s' = RDead ∧ ev_closed s' = true ∧ er_closed s' = true.
   Proof.
     intros Hr.
-    pose proof (cinv_reachable api closed_result cap cf d s Hr) as HI.
-    pose proof (reachable_LInv api closed_result cap cf d s Hr) as HL.
+    pose proof (cinv_reachable api closed_result pre hnd env cap cf d s Hr) as HI.
+    pose proof (reachable_LInv api closed_result pre hnd env cap cf d s Hr) as HL.
     eapply channels_close_promptly; eauto.
   Qed.
 
@@ -52,8 +55,8 @@ Section Main.
              rd s' = RDead ∧ ev_closed s' = true ∧ er_closed s' = true ∧ resp_closed s' = true.
   Proof.
     intros Hcf Hr.
-    pose proof (cinv_reachable api closed_result cap cf d s Hr) as HI.
-    pose proof (reachable_LInv api closed_result cap cf d s Hr) as HL.
+    pose proof (cinv_reachable api closed_result pre hnd env cap cf d s Hr) as HI.
+    pose proof (reachable_LInv api closed_result pre hnd env cap cf d s Hr) as HL.
     eapply reader_exits; eauto.
   Qed.
 
@@ -64,8 +67,8 @@ Section Main.
     file_closed s = true ∧ done_closed s = true ∧ (rd s = RExit2 ∨ rd s = RExit3 ∨ rd s = RDead).
   Proof.
     intros Hr.
-    pose proof (cinv_reachable api closed_result cap cf d s Hr) as HI.
-    pose proof (reachable_LInv api closed_result cap cf d s Hr) as HL.
+    pose proof (cinv_reachable api closed_result pre hnd env cap cf d s Hr) as HI.
+    pose proof (reachable_LInv api closed_result pre hnd env cap cf d s Hr) as HL.
     eapply resources_released; eauto.
   Qed.
 End Main.
